@@ -562,10 +562,13 @@ theorem runCb_winv (s : St) (c : Cb) (h : WInv s) : WInv (runCb s c) := by
           rw [hs] at this; cases this
         try simp only []
         split
-        · have := (drainChunks_step0 (cancelLinger (setP s c.idx { getP s c.idx with waiter := .none })) c.idx (getP s c.idx).chunks).keep
-            hn hidle
+        · have := (forceClose_step0 (cancelLinger (setP s c.idx { getP s c.idx with waiter := .none }))).keep hn hidle
           exact startRun_winv _ _ _ this.1 (fun _ => this.2)
-        · exact startRun_winv _ _ _ hn (fun _ => hidle)
+        · split
+          · have := (drainChunks_step0 (cancelLinger (setP s c.idx { getP s c.idx with waiter := .none })) c.idx (getP s c.idx).chunks).keep
+              hn hidle
+            exact startRun_winv _ _ _ this.1 (fun _ => this.2)
+          · exact startRun_winv _ _ _ hn (fun _ => hidle)
       · exact h
     · exact h
   | handlerWake =>
@@ -1156,8 +1159,10 @@ theorem runCb_qinv (s : St) (c : Cb) (hq : QInv s) : QInv (runCb s c) := by
     · split
       · try simp only []
         split
-        · exact startRun_qinv _ _ _ (drainChunks_qinv _ _ _ (QInv.of_q4 (s := s) rfl hq))
-        · exact startRun_qinv _ _ _ (QInv.of_q4 (s := s) rfl hq)
+        · exact startRun_qinv _ _ _ (QInv.of_q4 (q4_forceClose _) (QInv.of_q4 (s := s) rfl hq))
+        · split
+          · exact startRun_qinv _ _ _ (drainChunks_qinv _ _ _ (QInv.of_q4 (s := s) rfl hq))
+          · exact startRun_qinv _ _ _ (QInv.of_q4 (s := s) rfl hq)
       · exact hq
     · exact hq
   | handlerWake =>
